@@ -80,6 +80,7 @@ const (
 	stH1NewHeight   = "h1-newheight"
 	stH1Propose     = "h1-propose"
 	stH1Prevote     = "h1-prevote"
+	stH1PrevoteBlk  = "h1-prevote-with-block"
 	stH1PrevoteWait = "h1-prevotewait"
 	stH1Precommit   = "h1-precommit"
 	stH1CommitWait  = "h1-commit-wait-parts"
@@ -88,7 +89,7 @@ const (
 	stH2CommitWait  = "h2-commit-wait-parts"
 )
 
-var allNodeStates = []string{stWaitSync, stH1NewHeight, stH1Propose, stH1Prevote, stH1PrevoteWait, stH1Precommit, stH1CommitWait, stH2NewHeight, stH2Propose, stH2CommitWait}
+var allNodeStates = []string{stWaitSync, stH1NewHeight, stH1Propose, stH1Prevote, stH1PrevoteBlk, stH1PrevoteWait, stH1Precommit, stH1CommitWait, stH2NewHeight, stH2Propose, stH2CommitWait}
 
 type consNode struct {
 	State  string
@@ -285,7 +286,7 @@ func newConsNode(state string, t int) (c *consNode, err error) {
 	switch state {
 	case stWaitSync, stH1NewHeight:
 		c.makeBlock()
-	case stH1Propose, stH1Prevote, stH1PrevoteWait, stH1Precommit, stH1CommitWait:
+	case stH1Propose, stH1Prevote, stH1PrevoteBlk, stH1PrevoteWait, stH1Precommit, stH1CommitWait:
 		c.fire(cstypes.RoundStepNewHeight)
 	case stH2NewHeight, stH2Propose, stH2CommitWait:
 		c.commitHeight()
@@ -300,6 +301,12 @@ func newConsNode(state string, t int) (c *consNode, err error) {
 	case stH1Prevote:
 		c.makeBlock()
 		c.fire(cstypes.RoundStepPropose) // prevotes nil
+	case stH1PrevoteBlk:
+		c.makeBlock()
+		c.deliverProposalAndParts() // complete proposal: prevotes the block
+		if c.N.RS().ProposalBlock == nil {
+			panic("fixture: proposal block not assembled")
+		}
 	case stH1PrevoteWait:
 		c.makeBlock()
 		c.fire(cstypes.RoundStepPropose)
@@ -320,7 +327,7 @@ func newConsNode(state string, t int) (c *consNode, err error) {
 	}
 	rs := n.RS()
 	want := map[string]cstypes.RoundStepType{stWaitSync: cstypes.RoundStepNewHeight, stH1NewHeight: cstypes.RoundStepNewHeight, stH1Propose: cstypes.RoundStepPropose,
-		stH1Prevote: cstypes.RoundStepPrevote, stH1PrevoteWait: cstypes.RoundStepPrevoteWait, stH1Precommit: cstypes.RoundStepPrecommit, stH1CommitWait: cstypes.RoundStepCommit,
+		stH1Prevote: cstypes.RoundStepPrevote, stH1PrevoteBlk: cstypes.RoundStepPrevote, stH1PrevoteWait: cstypes.RoundStepPrevoteWait, stH1Precommit: cstypes.RoundStepPrecommit, stH1CommitWait: cstypes.RoundStepCommit,
 		stH2NewHeight: cstypes.RoundStepNewHeight, stH2Propose: cstypes.RoundStepPropose, stH2CommitWait: cstypes.RoundStepCommit}[state]
 	wantH := uint64(1)
 	if state == stH2NewHeight || state == stH2Propose || state == stH2CommitWait {
